@@ -404,6 +404,200 @@ def share_obligations(u: Unit):
     return out
 
 
+# ---------------------------------------------------------------------------------------------------------------------------------
+# C03, "no user callback of that pipeline runs on its behalf" - the part the ownership conditions do not give: a subscriber may
+# unsubscribe from INSIDE on_next (take(n), first, an explicit dispose).  dispose() then returns while the operator's handler is still
+# on the stack: whatever the handler goes on to do after `observer.on_next(...)` returned is done for a subscriber that is gone.
+#   obligation (per handler nested in a subscribe function, on the real AST, path-insensitive over conditions):  on every path, between
+#   handing an element downstream and a call of a user function (a parameter of the operator's factory, or a local alias of one) or a
+#   new `.subscribe(` - directly or through local helpers - stands a re-check of the subscription:  `if <owned disposable>.is_disposed`.
+# What counts: emission = any `<x>.on_next(..)` (the subscriber, or a window / group / subject handed to it), or a local helper that does so;
+# re-check = an `if` whose test reads `.is_disposed` of a name the returned disposable owns (or of the returned object itself).
+AFTER_EMISSION_DEPTH = 4
+
+
+def _own_calls(node):
+    """calls evaluated when `node` runs (not those inside nested function definitions / lambdas), in source order"""
+    out = []
+
+    class V(ast.NodeVisitor):
+        def visit_FunctionDef(self, n):
+            pass
+
+        visit_AsyncFunctionDef = visit_FunctionDef
+
+        def visit_Lambda(self, n):
+            pass
+
+        def visit_Call(self, n):
+            self.generic_visit(n)
+            out.append(n)
+    V().visit(node)
+    return out
+
+
+def _params(fn):
+    a = fn.args
+    return [x.arg for x in a.posonlyargs + a.args + a.kwonlyargs] + ([a.vararg.arg] if a.vararg else []) + ([a.kwarg.arg] if a.kwarg else [])
+
+
+def enclosing_chain(tree, target):
+    """the function definitions enclosing `target` in the module, outermost first"""
+    def find(node, chain):
+        for c in ast.iter_child_nodes(node):
+            if c is target:
+                return chain
+            nxt = chain + [c] if isinstance(c, (ast.FunctionDef, ast.AsyncFunctionDef)) else chain
+            r = find(c, nxt)
+            if r is not None:
+                return r
+        return None
+    return find(tree, []) or []
+
+
+def after_emission_obligations(u: Unit, tree):
+    """[(handler name, ordinal, ok, detail)] - see the block comment above"""
+    fn = u.fn
+    ps = _params(fn)
+    if not ps:
+        return []
+    obs = ps[0] if ps[0] != "self" else (ps[1] if len(ps) > 1 else None)
+    if obs is None:
+        return []
+    user = set()
+    for f in enclosing_chain(tree, fn):
+        user |= set(_params(f))
+    user -= {"source", "self", "scheduler", "sources"}
+    # local aliases of user functions (`mapper_ = mapper or identity`), in the factory functions and in subscribe itself
+    for f in enclosing_chain(tree, fn) + [fn]:
+        for st in f.body:
+            if (isinstance(st, ast.Assign) and len(st.targets) == 1 and isinstance(st.targets[0], ast.Name) and not isinstance(st.value, ast.Call)
+                    and any(isinstance(n, ast.Name) and n.id in user for n in ast.walk(st.value))):
+                user.add(st.targets[0].id)
+    owned = u.owned_set()
+
+    def is_recheck(test, depth=0):
+        for n in ast.walk(test):
+            if isinstance(n, ast.Attribute) and n.attr == "is_disposed":
+                nm = u.name_of(n.value)
+                if nm is not None and (nm in owned or nm in u.containers):
+                    return True
+            if isinstance(n, ast.Call) and isinstance(n.func, ast.Name) and n.func.id in u.local_fns and depth < 2:
+                # a local predicate (`def gone(): return d.is_disposed`)
+                g = u.local_fns[n.func.id]
+                if any(isinstance(r, ast.Return) and r.value is not None and is_recheck(r.value, depth + 1) for r in ast.walk(g)):
+                    return True
+        return False
+
+    def emits(call, depth=0):
+        f = call.func
+        if isinstance(f, ast.Attribute) and f.attr == "on_next":
+            # the subscriber itself, or a window / group / subject it was handed: its on_next runs the subscriber's code
+            return True
+        if isinstance(f, ast.Name) and f.id in u.local_fns and depth < AFTER_EMISSION_DEPTH:
+            return any(emits(c, depth + 1) for st in u.local_fns[f.id].body for c in _own_calls(st))
+        return False
+
+    def risky(call, depth=0):
+        f = call.func
+        if isinstance(f, ast.Name) and f.id in user:
+            return f"calls the user's `{f.id}`"
+        if isinstance(f, ast.Attribute) and f.attr in ("subscribe", "subscribe_safe"):
+            return f"subscribes `{ast.unparse(f.value)[:60]}`"
+        if isinstance(f, ast.Name) and f.id in u.local_fns and depth < AFTER_EMISSION_DEPTH:
+            g = u.local_fns[f.id]
+            for st in g.body:
+                if isinstance(st, ast.If) and is_recheck(st.test):
+                    return None  # the helper re-checks first
+                for c in _own_calls(st):
+                    r = risky(c, depth + 1)
+                    if r:
+                        return f"`{f.id}()` {r}"
+        return None
+
+    out = []
+
+    def check(h):
+        found = []     # (ok, detail)
+        emitted_any = [False]
+
+        def calls(node, emitted):
+            for c in _own_calls(node):
+                r = risky(c)
+                if emitted and r:
+                    found.append((False, f"{r} (line {c.lineno}) after the element was handed downstream (line {emitted}) without re-checking "
+                                         f"that the subscriber is still subscribed: a subscriber that unsubscribes inside on_next (take(n), first) "
+                                         f"still has this done on its behalf"))
+                if emits(c):
+                    emitted = c.lineno
+                    emitted_any[0] = True
+            return emitted
+
+        def block(stmts, emitted):
+            for st in stmts:
+                if isinstance(st, (ast.FunctionDef, ast.AsyncFunctionDef, ast.ClassDef)):
+                    continue
+                if isinstance(st, ast.If):
+                    if is_recheck(st.test):
+                        if emitted:
+                            found.append((True, f"re-checks the subscription (line {st.lineno}) after the emission at line {emitted}"))
+                        block(st.body, None)
+                        block(st.orelse, None)
+                        emitted = None
+                        continue
+                    emitted = calls(st.test, emitted)
+                    e1, e2 = block(st.body, emitted), block(st.orelse, emitted)
+                    emitted = e1 or e2
+                    continue
+                if isinstance(st, (ast.For, ast.AsyncFor, ast.While)):
+                    emitted = calls(st.iter if not isinstance(st, ast.While) else st.test, emitted)
+                    e = block(st.body, emitted)
+                    if e and not emitted:
+                        n0 = len(found)
+                        block(st.body, e)  # the next iteration runs after this one's emission
+                        del found[n0 + 8:]
+                    emitted = e or emitted
+                    emitted = block(st.orelse, emitted)
+                    continue
+                if isinstance(st, ast.Try):
+                    e = block(st.body, emitted)
+                    for hd in st.handlers:
+                        block(hd.body, e or emitted)
+                    e = block(st.orelse, e)
+                    emitted = block(st.finalbody, e)
+                    continue
+                if isinstance(st, (ast.With, ast.AsyncWith)):
+                    for item in st.items:
+                        emitted = calls(item.context_expr, emitted)
+                    emitted = block(st.body, emitted)
+                    continue
+                emitted = calls(st, emitted)
+                if isinstance(st, (ast.Return, ast.Raise, ast.Continue, ast.Break)):
+                    return None
+            return emitted
+        block(h.body, None)
+        return found, emitted_any[0]
+
+    nested = [n for n in ast.walk(fn) if isinstance(n, (ast.FunctionDef, ast.AsyncFunctionDef)) and n is not fn]
+    for h in sorted(nested, key=lambda n: n.lineno):
+        name = h.name
+        found, emitted = check(h)
+        if not emitted:
+            continue
+        # one obligation per distinct site, and one that says the handler does nothing else afterwards
+        seen = set()
+        k = 0
+        for ok, detail in found:
+            if detail in seen:
+                continue
+            seen.add(detail)
+            k += 1
+            out.append((name, h.lineno, k, ok, detail))
+        if not any(not ok for ok, _ in found):
+            out.append((name, h.lineno, 0, True, "nothing is done for the subscriber after an element was handed downstream unless the subscription is re-checked"))
+    return out
+
+
 def subscribe_functions(tree):
     """(function node, qualname, why): functions handed to Observable(...) / ConnectableObservable, `_subscribe_core` methods"""
     handed = set()
@@ -453,17 +647,27 @@ MUTANTS = [
 ]
 
 
+#: must-fail mutants of the after-emission obligations (C03): the re-check of the subscription is taken out / moved behind the work
+MUTANTS_C03 = [
+    ("reactivex/operators/_expand.py", "                    if d.is_disposed:\n                        return\n", "", "expand: no re-check after the emission"),
+    ("reactivex/operators/_groupjoin.py", "                if rcd.is_disposed:\n                    return\n", "", "group_join: no re-check after the window was handed on"),
+    ("reactivex/observable/generatewithrelativetime.py", "                if mad.is_disposed:\n", "                if False:\n", "generate_with_relative_time: no re-check"),
+    ("reactivex/operators/_window.py", "                if d.is_disposed:\n                    return\n", "                if window.is_disposed:\n                    return\n",
+     "window_when: re-checks something that is not part of the subscription"),
+]
+
+
 def must_fail():
     res = {"mutants": 0, "killed": 0, "survivors": []}
     base = Loader()
-    for (rel, old, new, what) in MUTANTS:
+    for (rel, old, new, what) in MUTANTS + MUTANTS_C03:
         src = base.load_file(rel).src
         if old not in src:
             continue
         ld = Loader()
         ld.overrides = {rel: src.replace(old, new, 1)}
         try:
-            rep = run_unit({"prop": "C02"}, loader=ld, only=rel)
+            rep = run_unit({"prop": "C03" if (rel, old, new, what) in MUTANTS_C03 else "C02"}, loader=ld, only=rel)
             killed = any(r["verdict"] != "proved" for r in rep["results"])
         except SyntaxError:
             continue
@@ -499,11 +703,32 @@ def run_unit(desc, loader=None, only=None):
                 k = counts[attr] = counts.get(attr, 0) + 1
                 results.append({"id": f"{label}/ownership/{attr}#{k}/{kind}-owned-by-the-returned-disposable", "verdict": "proved" if ok else "refuted",
                                 "backend": "ownership-analysis", "model": {}, "path": [], "detail": detail, "seconds": 0.0, "kind": "ownership"})
+            if desc.get("prop") == "C03":
+                dup = {}
+                for (hname, hline, k, ok, detail) in after_emission_obligations(u, tree):
+                    # handlers are named by their function name (+ an ordinal when two nested handlers share a name), not by line
+                    base = f"{label}/{hname}"
+                    lines = dup.setdefault(base, [])
+                    if hline not in lines:
+                        lines.append(hline)
+                    hid = base if lines.index(hline) == 0 else f"{base}~{lines.index(hline) + 1}"
+                    leaf = "does-nothing-more-for-a-subscriber-that-may-have-unsubscribed-inside-on_next" if k == 0 else \
+                        f"work#{k}-after-the-emission-is-behind-a-re-check-of-the-subscription"
+                    results.append({"id": f"{hid}/after-handing-an-element-downstream/{leaf}", "verdict": "proved" if ok else "refuted",
+                                    "backend": "ownership-analysis", "model": {}, "path": [], "detail": detail, "seconds": 0.0, "kind": "after-emission"})
+                    try:
+                        functions.setdefault(label, loader.sha(rel, qual.split(".")[0]))
+                    except Exception:  # noqa: BLE001
+                        pass
             for j, (n, ok, detail) in enumerate(share_obligations(u)):
                 results.append({"id": f"{label}/ownership/share#{j + 1}/ref-counted-share-handed-only-to-the-subscriber", "verdict": "proved" if ok else "refuted",
                                 "backend": "ownership-analysis", "model": {}, "path": [], "detail": detail, "seconds": 0.0, "kind": "ownership"})
     for r in results:
-        if r["verdict"] == "refuted":
+        if r["verdict"] == "refuted" and r["kind"] == "after-emission":
+            # replayed by the shapes of that operator file only, with the subscriber unsubscribing inside its k-th on_next
+            r["replay_info"] = {"runner": "ownrun.py", "module": "-", "name": r["id"].split("::")[0], "mode": "replay",
+                                "opts": {"only_matching": True, "only_kind": "dispose_in_on_next"}}
+        elif r["verdict"] == "refuted":
             r["replay_info"] = {"runner": "ownrun.py", "module": "-", "name": r["id"].split("/ownership/")[0], "mode": "replay"}
     rep = {"unit": f"ownership-conditions/{desc.get('prop', 'C02')}", "kind": "K5 ownership: every subscription is owned by the returned disposable (AST, modular)",
            "functions": functions, "results": results, "unsupported": None, "spec_validation": [], "bounded": [], "seconds": time.time() - t0}
